@@ -6,7 +6,7 @@ Model of the worksheet cell grid and of the merge rectangles (property C03).
   cell.go   prepareCell, mergeCellsParser, cellInRange, isOverlap, getCellStringFunc,
             the cell-level effect of SetCellInt/Uint/Bool/Float/Str/Default/RichText,
             SetCellFormula (normal formulas), setCellTimeFunc's placement
-  styles.go SetCellStyle, GetCellStyle (which densifies)
+  styles.go SetCellStyle, GetCellStyle (read-only through ws.getCell)
   merge.go  MergeCell, UnmergeCell, GetMergeCells' normalisation: overlapRange is implicit,
             flatMergedCells, mergeOverlapCells, mergeCell (with the in-place rect mutation)
 over the dense representation `rows : List Row`, `Row.cells : List Cell`.
@@ -341,17 +341,22 @@ def setStyle (s : Sheet) (c1 r1 c2 r2 : Nat) (id : Nat) : Sheet × Res :=
   if s.nStyles ≤ id then ({ s with rows := rows1 }, .err) else
   ({ s with rows := (rowMajor q).foldl (fun rs p => setSlot rs p.1 p.2 (fun v => { v with s := id })) rows1 }, .ok)
 
-/-- `GetCellStyle(sheet, cell)`: a getter that densifies; no redirect. (Row and column
-default styles are outside the model: `prepareCellStyle` is the identity here.) -/
+/-- `ws.getCell(col, row)`: read-only access by position; `nil` when the row slot or the cell
+slot does not exist (`row > len(Row) || col > len(Row[row-1].C)`, evaluated left to right) -/
+def getCellAt (rows : List Row) (c r : Nat) : Option Cell :=
+  if r > rows.length then none else
+  match rows[r - 1]? with
+  | some rd => if c > rd.cells.length then none else rd.cells[c - 1]?
+  | none => none
+
+/-- `GetCellStyle(sheet, cell)`: no redirect; reads the slot through `ws.getCell` and creates
+nothing (style 0 for a slot that does not exist). (Row and column default styles are outside
+the model: `prepareCellStyle` is the identity here.) -/
 def getStyle (s : Sheet) (c r : Nat) : Sheet × Res :=
   if c = 0 ∨ r = 0 then (s, .err) else
-  let rows1 := prepareSheetXML s.rows c r
-  let st := match rows1[r - 1]? with
-    | some rd => match rd.cells[c - 1]? with
-      | some cell => cell.val.s
-      | none => 0
-    | none => 0
-  ({ s with rows := rows1 }, .style st)
+  (s, .style (match getCellAt s.rows c r with
+    | some cell => cell.val.s
+    | none => 0))
 
 /-- `lastRowNum` of `getCellStringFunc`: the `R` of the last row slot -/
 def lastRowNum (rows : List Row) : Nat :=
